@@ -220,11 +220,30 @@ def _mask_roots(f):
 def check_bins(ctx):
     prog = ctx.prog
     seen = {}
-    for qual, m, c, f in prog.all_functions(["verif.output", "verif.util", "verif.metric"]):
+    all_funcs = list(prog.all_functions(["verif.output", "verif.util", "verif.metric"]))
+    for qual, m, c, f in all_funcs:
+        pm_ = None
         for node in _mask_roots(f):
             ev = symeval.Evaluator(m)
+            env0 = {}
+            # the names of a loop over consecutive pairs - for lo, hi in zip(E[:-1], E[1:]) - are E[i] and E[i+1]
+            if pm_ is None:
+                pm_ = parent_map(f)
+            par = pm_.get(node)
+            while par is not None and par is not f:
+                if isinstance(par, ast.For) and isinstance(par.target, (ast.Tuple, ast.List)) and isinstance(par.iter, ast.Call) and dotted(par.iter.func) == "zip":
+                    try:
+                        itv = ev.ev(par.iter, symeval.Path({}, []))
+                        lv = symeval._loop_value(par, itv, "") if isinstance(itv, Rat) else None
+                    except symeval.Undecided:
+                        lv = None
+                    if isinstance(lv, list) and len(lv) == len(par.target.elts):
+                        for t_, v_ in zip(par.target.elts, lv):
+                            if isinstance(t_, ast.Name) and isinstance(v_, Rat) and t_.id not in env0:
+                                env0[t_.id] = v_
+                par = pm_.get(par)
             try:
-                r = ev.ev(node, symeval.Path({}, []))
+                r = ev.ev(node, symeval.Path(env0, []))
             except symeval.Undecided:
                 continue
             if not isinstance(r, Rat):
@@ -271,6 +290,18 @@ def check_bins(ctx):
                     raised = _top_edge_raised(prog, m, f)
                     ctx.ob("C16.2", qual, raised, "probability bins include p = 1 (top edge)", loc=prog.loc(m, node),
                            msg="bins [e_i, e_i+1) on edges ending at 1: cases with forecast probability exactly 1 fall into no bin and are dropped from the diagram")
+    # a bin test that moved into a helper which did not exist on the reference tree counts for every confirmed site that calls the helper
+    fmap = {qual: (m, c, f) for qual, m, c, f in all_funcs}
+    known = trace.known_methods()
+    for hq in [h for h in seen if h not in BIN_SITES]:
+        hm, hc, hf = fmap[hq]
+        hname = hq.rsplit(".", 1)[1]
+        if hc is not None and hname in known.get(hc.qual, [hname]):
+            continue
+        for qual in BIN_SITES:
+            m2, c2, f2 = fmap.get(qual, (None, None, None))
+            if f2 is not None and m2 is hm and any(isinstance(n_, ast.Call) and (dotted(n_.func) or "").split(".")[-1] == hname for n_ in ast.walk(f2)):
+                seen[qual] = seen.get(qual, 0) + seen[hq]
     for qual, want in sorted(BIN_SITES.items()):
         ctx.need(seen.get(qual, 0) >= want, "%s: %d of %d confirmed bin-membership tests found" % (qual, seen.get(qual, 0), want))
     extra = sorted(set(seen) - set(BIN_SITES))
